@@ -46,6 +46,11 @@ def queue_counter_coherence(ats_of, ev: Evidence, rule: str = "C10-R4") -> list[
             if e.label[0] == "put_request" and h.wget(e.pre, "_pdus_to_be_sent"):
                 continue
             cnt, q = h.wget(e.post, "states._num_packets_ready"), h.wget(e.post, "_pdus_to_be_sent")
+            cnt0, q0 = h.wget(e.pre, "states._num_packets_ready"), h.wget(e.pre, "_pdus_to_be_sent")
+            if (isinstance(q0, tuple) and "ANY" in q0) or (isinstance(q, tuple) and "ANY" in q):
+                continue  # queue content abstracted away (users that do not retrieve PDUs, thorough tier): length unknown
+            if not (isinstance(cnt0, int) and not isinstance(cnt0, bool)) or (isinstance(q0, tuple) and cnt0 != len(q0)):
+                continue  # counter unknown on entry, or the disagreement was inherited (it is reported on the edge that created it)
             if isinstance(cnt, int) and not isinstance(cnt, bool) and isinstance(q, tuple):
                 n_nodes += 1
                 if cnt != len(q):
